@@ -33,6 +33,7 @@ CONSTANTS
   BurstUniverse <- MCBurstCalls
   BurstSizes <- MCBurstSizes
   CleanupCloses = %(cc)s
+  MidCall = %(mid)s
   PoolRace = "%(race)s"
 VIEW View
 INVARIANTS TypeOK OrderedExactlyOnce Transparent ForwardedWhenReachable NotFoundContactsNobody OneConnPerBackend ReusedWhileInTable CleanedAfterTick ClosedWhenDropped BurstTransparent BurstLeavesOneConn
@@ -42,7 +43,7 @@ CHECK_DEADLOCK FALSE
 
 
 def cfg(**k):
-    d = dict(spec="GenSpec", slots="MCSlots2", tables="MCTablesFixed", calls="MCCallsQuick", nc=1, ns=0, nt=0, cc="TRUE", nd=0, nb=0, race="recheck")
+    d = dict(spec="GenSpec", slots="MCSlots2", tables="MCTablesFixed", calls="MCCallsQuick", nc=1, ns=0, nt=0, cc="TRUE", nd=0, nb=0, race="recheck", mid="FALSE")
     d.update(k)
     return CFG % d
 
@@ -93,6 +94,9 @@ def run(ctx):
         "calls of one history are sequential except in bursts: 2-3 calls started together for a backend without a pooled connection, each held at the backend until all are in flight; the interleaving of their pool accesses cannot be steered, so every burst is played several times; per-call behaviours run 8 at a time over warmed-up connections",
         "outages: the backend's listener is closed (all its connections die) and later reopened on the same address; nothing is asserted about the status of a call whose backend does not listen, except that nobody else serves it; after the recovery a call must get through within 20 s (gRPC's reconnect back-off is ~1-3 s); from then on connections OPEN AT THE BACKEND'S LISTENER are counted (<=1 while in the table, observed for 2.5 s / 4 s after recovery and after the clean-up; 0 after it left the table and the clean-up ran), not dials",
         "after a burst the backend must have exactly one open connection within 5 s",
+        "route weights: a backend that stays in the table with weight 0 (its sibling on the route has 'weight 1.0') is a target of the table: a stream in flight on it must survive the table change and the next clean-up pass (waited for: next multiple of 5 s after the change + 1 s + grace + 0.5 s); calls whose backend has left the table altogether while they run are not covered",
+        "size limits: besides the defaults (4 MiB both) one non-default pair proxy.grpcmaxrxmsgsize=300000 > proxy.grpcmaxtxmsgsize=40000 with a 120000-byte request ('qB'); responses above tx (legitimately refused towards the caller) are not exercised",
+        "dsthost spellings: exact, other letter case (H1), with the default port (h1:80), matched only by a glob route (x.beta.c16.test vs *.beta.c16.test), no route (h2)",
         "flapping: grpcshutdowntimeout is 3 s in these behaviours; the proxy's clean-up timer cannot be observed before it closes something, so the tick is taken to have happened 1 s after it was due (5 s after the proxy was made) - if it is later still, the behaviour says nothing and is counted; the closing of the old connection ('d' in the call's event order) is observed at the backend's socket",
         "every call is counted at the backend by its id: a call that reaches a backend twice (a retry replaying the caller's messages) is a violation whatever the caller sees",
         "method paths of services a grpc.Server may register itself: grpc.health.v1.Health/Check and /Watch, routed for host h1 only (reflection and channelz paths are not exercised)",
@@ -111,9 +115,13 @@ def run(ctx):
     sink_burst = os.path.join(ctx.tmp, "c16.burst")
     sink_out = os.path.join(ctx.tmp, "c16.outage")
     sink_flap = os.path.join(ctx.tmp, "c16.flap")
+    sink_lim = os.path.join(ctx.tmp, "c16.limits")
+    sink_w = os.path.join(ctx.tmp, "c16.weights")
     jobs = [
         ("per-call universe", dict(calls=ctx.pick("MCCallsQuick", "MCCallsFull"), slots=ctx.pick("MCSlotsH", "MCSlots4")), sink_call, "mc_call"),
         ("flapping", dict(calls="MCCallsFlap", tables="MCTablesFlap", nc=2, ns=2, nt=1), sink_flap, "mc_flap"),
+        ("size limits", dict(calls="MCCallsLimits", slots="MCSlots2"), sink_lim, "mc_limits"),
+        ("weights", dict(calls="MCCallsFlap", slots="MCSlotsW", tables="MCTablesWeight", nc=1, ns=1, nt=1, mid="TRUE"), sink_w, "mc_weights"),
         ("histories", dict(calls=ctx.pick("MCCallsHistSmall", "MCCallsHist"), tables="MCTablesAll", nc=3, ns=2, nt=ctx.pick(1, 2)), sink_hist, "mc_hist"),
         ("bursts", dict(calls="MCCallsHistSmall", tables="MCTablesAll", nc=ctx.pick(0, 1), ns=1, nt=1, nb=1), sink_burst, "mc_burst"),
         ("outages", dict(calls="MCCallsOutage", tables="MCTablesAll", nc=ctx.pick(4, 5), ns=1, nt=1, nd=1), sink_out, "mc_outage"),
@@ -259,8 +267,26 @@ def run(ctx):
             seen_pos.add(pos)
             chosen_flap.append(b)
     chosen_flap = chosen_flap[:ctx.pick(1, 4)]
+    # a stream in flight on a backend whose traffic is moved away ("t": it stays in the table with weight 0) and
+    # that outlives a clean-up pass ("k"), with messages still to be exchanged afterwards
+    weights = []
+    for b in sorted(read(sink_w), key=key):
+        last = b["steps"][-1]
+        o = last.get("ord", [])
+        if (last["op"] == "call" and "t" in o and "k" in o and 0 < o.index("t") < o.index("k")
+                and any(e in ("q", "r") for e in o[o.index("k"):]) and any(r.get("zero") and r["be"] == last["be"] for r in last["tabs"][0])):
+            b["drive"] = "lock"
+            weights.append(b)
+    rnd.shuffle(weights)
+    weights = weights[:ctx.pick(1, 3)]
+    if not weights:
+        ctx.inconclusive("the generator produced no behaviour with a stream on a backend that is moved to weight 0")
+        return
     if not ctx.thorough:
         chosen_ticks = []       # the flapping behaviour also dials, leaves, is cleaned up and dials again
+        burst_tick_q = []       # (bursts followed by leaving and clean-up: thorough)
+    else:
+        burst_tick_q = burst_tick
     if not burst_plain or not burst_tick or not chosen_flap or not chosen_out or out_score(chosen_out[0])[0] != -1:
         ctx.inconclusive("the generator produced no burst / burst+clean-up / outage+recovery+clean-up behaviour")
         return
@@ -278,12 +304,23 @@ def run(ctx):
     for b in chosen_flap:
         b["drive"] = "lock"     # the closing of the old connection is a step of the call
     selftests = [corrupt(base, how) for how in ("resp", "status", "backend", "conn")]
-    allb = calls + plain + burst_plain + chosen_ticks + chosen_flap + burst_tick + chosen_out + selftests
+    # non-default message size limits (rx > tx): one interleaving per call is enough here
+    lims, seen_call = [], set()
+    for b in sorted(read(sink_lim), key=key):
+        k = json.dumps(b["steps"][-1]["call"], sort_keys=True)
+        if k not in seen_call:
+            seen_call.add(k)
+            b["limits"] = "rx>tx"
+            lims.append(b)
+    if not lims:
+        ctx.inconclusive("the generator produced no behaviour for the size limits")
+        return
+    allb = calls + plain + lims + burst_plain + chosen_ticks + chosen_flap + weights + burst_tick_q + chosen_out + selftests
     for i, b in enumerate(allb):
         b["idx"] = i + 1
-    for b in chosen_ticks + chosen_flap + burst_tick + chosen_out:
+    for b in chosen_ticks + chosen_flap + weights + burst_tick_q + chosen_out:
         ctx.log("  closing-tick behaviour: " + " ".join(
-            s["op"] + (":" + (s.get("be") or "-") + "/" + s.get("conn", "") + ("/" + "".join(s["ord"]) if "d" in s.get("ord", []) else "") if s["op"] == "call" else
+            s["op"] + (":" + (s.get("be") or "-") + "/" + s.get("conn", "") + ("/" + "".join(s["ord"]) if set("dtk") & set(s.get("ord", [])) else "") if s["op"] == "call" else
                        ":" + ",".join(s.get("closed", [])) if s["op"] == "tick" else
                        ":" + s["be"] + ("x%d" % s["n"] if s["op"] == "burst" else "") if s["op"] in ("down", "up", "burst") else
                        ":" + ",".join(sorted(set(r["be"] for r in s["table"])))) for s in b["steps"]))
